@@ -21,6 +21,7 @@ OBLIGATIONS = [
     "Pkgcore.C33.basename_install_placement",
     "Pkgcore.C33.directory_needs_recursive",
     "Pkgcore.C33.recursive_install_mirrors_tree",
+    "Pkgcore.C33.recursive_dir_level",
     "Pkgcore.C33.doman_placement",
     "Pkgcore.C33.doman_without_section_rejected",
     "Pkgcore.C33.doman_plan_entries",
@@ -53,9 +54,10 @@ ASSUMPTIONS = [
 ]
 RULE = ("random source trees (files, nested directories, symlinks to files/directories, broken links) and sequences of 1-6 helper requests "
         "served by ONE long-lived helper table on one image (as ebd does), half of them the previous request repeated after an "
-        "into/insinto/insopts/diropts change (other --dest, other options), the image compared after every request; install options "
+        "into/insinto/insopts/diropts change (other --dest, other options) or — dosym/dohard — the same link requested again, re-pointed, "
+        "or chained from the name just created, the image compared after every request; install options "
         "with set-id/sticky modes and -o/-g (uids/gids 0, 250, 251) "
-        "(doins/dodoc/dohtml with and without -r, doexe/dobin/dosbin/dolib*/doinfo, doman with sections/languages/compression/-i18n, domo, "
+        "(doins/dodoc/dohtml with and without -r, directory arguments spelled dir, dir/, dir//, ./dir, a//b and dir/. = its contents, doexe/dobin/dosbin/dolib*/doinfo, doman with sections/languages/compression/-i18n, domo, "
         "dodir, keepdir, dosym incl. -r, dohard) over EAPIs 0-8, random --dest, option strings in several spellings and a random umask; "
         "non-trivial = the request names at least one source or link and the image after it has at least two entries, or it is rejected for a PMS reason")
 LEVEL_TEXT = ("Kernel-checked Lean 4 theorems about a model of the helpers in two layers (what each helper asks of the file system; what those "
@@ -395,10 +397,28 @@ def opt_string(dest, ins, dirs):
     return " ".join(parts)
 
 
+def spell_dir(rng, d):
+    """a directory argument in one of the spellings ebuilds use: dir, dir/, dir//, ./dir, a//b and — meaning "the contents of
+    dir" — dir/. , dir/./ , dir//. (the last component `.` names the directory itself, no dir/ level is created)"""
+    if rng.random() < 0.15:
+        d = d.replace("/", rng.choice(["//", "/./"]))
+    if rng.random() < 0.12:
+        d = "./" + d
+    return d + rng.choice(["", "", "", "/", "//", "/.", "/.", "/./", "//.", "/.//"])
+
+
+def dir_spelling(arg):
+    a = arg.rstrip("/")
+    return ("dirarg_dot" if a.endswith("/.") else "dirarg_trailing_slash" if a != arg else "dirarg_plain") + \
+           ("_inner" if "//" in a or "/./" in a or a.startswith("./") else "")
+
+
 def gen_request(rng, tree, eapi, image_paths):
     """one helper request: (json for the driver, helper name, option string, argv) ; paths relative to tree.root"""
     kind = rng.choice(["doins", "doins", "dodoc", "dohtml", "basename", "basename", "doman", "doman", "domo",
                        "dodir", "keepdir", "dosym", "dosym", "dohard"])
+    if image_paths and rng.random() < 0.12:
+        kind = "dohard"      # needs an image entry to link to: rarely useful as a first request
     ins_s, ins = gen_raw(rng)
     dir_s, dirs = gen_raw(rng, 0.5, files=False)
     dest = rng.choice(DESTS)
@@ -421,9 +441,9 @@ def gen_request(rng, tree, eapi, image_paths):
         want_dir = rng.random() < (0.55 if kind != "basename" else 0.08)
         if want_dir and dirs_top:
             d = rng.choice(dirs_top)
-            args.insert(rng.randint(0, len(args)), d + rng.choice(["", "", "/", "//"]))
+            args.insert(rng.randint(0, len(args)), spell_dir(rng, d))
             if rng.random() < 0.2 and len(dirs_top) > 1:
-                args.append(rng.choice(dirs_top))
+                args.append(spell_dir(rng, rng.choice(dirs_top)))
         if rng.random() < 0.04:
             args.append("no-such-file")
         if rng.random() < 0.03:
@@ -542,7 +562,23 @@ def vary_request(rng, tree, eapi, prev, image_paths):
     req, name, options, argv = prev
     kind = req["kind"]
     if kind in ("dosym", "dohard"):
-        return gen_request(rng, tree, eapi, image_paths)
+        # the same link requested again (a helper loop run twice, eclass and ebuild both creating it), the same link name
+        # re-pointed to another source, or the name just created used as the source of the next link
+        k = rng.random()
+        new = json.loads(json.dumps(req))
+        files = [p for p in image_paths if p]
+        if k < 0.45:
+            pass
+        elif k < 0.7:
+            new["source"] = rng.choice(["/usr/bin/a", "../lib/x", "/opt/t/tool"]) if kind == "dosym" else \
+                rng.choice(["", "/"]) + rng.choice(files or ["usr/bin/a"])
+        elif k < 0.9:
+            new["source"] = req["target"] if kind == "dohard" or not req.get("relative") else "/" + req["target"].lstrip("/")
+            new["target"] = rng.choice(["/usr/bin/hl", "hl2", "/usr/lib/b", "lnk2"] + [p for p in files[:4]])
+        else:
+            return gen_request(rng, tree, eapi, image_paths)
+        nargv = (["-r"] if new.get("relative") else []) + [new["source"], new["target"]]
+        return new, name, options, nargv
     new = json.loads(json.dumps(req))
     ins_s, ins = gen_raw(rng, 0.75)
     dir_s, dirs = gen_raw(rng, 0.6, files=False)
@@ -795,6 +831,10 @@ def _run_sequences(ctx, rng, base):
                 req, name, options, argv = vary_request(rng, tree, eapi, prev, image_paths)
             else:
                 req, name, options, argv = gen_request(rng, tree, eapi, image_paths)
+            if req is not None and name in ("dosym", "dohard"):
+                existing = os.path.normpath(req["target"].strip("/") or ".") in image_paths
+                same = prev is not None and prev[0] is not None and prev[1] == name and prev[3] == argv
+                ctx.count("%s_link_name_%s" % (name, "requested_twice" if same else "exists" if existing else "new"))
             prev = (req, name, options, argv)
             os.umask(um)
             try:
@@ -833,6 +873,9 @@ def _run_sequences(ctx, rng, base):
             r = rep[idx]
             impl_reason = None if status == "ok" else (reason_of(msg) if status == "reject" else "internal")
             ctx.count("helper_" + name)
+            for t in req.get("targets", []):
+                if t["node"].get("t") == "dir":
+                    ctx.count(dir_spelling(t["arg"]) + ("_r" if req.get("recursive") else "_nor"))
             ctx.count("eapi_" + eapi)
             ctx.count("umask_%03o" % um)
             ctx.count("impl_" + (impl_reason or "ok").split(":")[0])
@@ -931,9 +974,10 @@ def _man(names, i18n=""):
     return f
 
 
-def _dirarg(recursive):
+def _dirarg(recursive, suffix="", nested=False):
     def f(tree):
-        d = tree.paths(lambda p, nd: nd["t"] == "dir" and "/" not in p)[0]
+        ds = tree.paths(lambda p, nd: nd["t"] == "dir" and ("/" in p) == nested)
+        d = (ds or tree.paths(lambda p, nd: nd["t"] == "dir"))[0] + suffix
         fs = _files(tree, 1)
         d2 = _tg(tree, [d] + fs)
         d2["recursive"] = recursive
@@ -947,6 +991,13 @@ SEQ_CORPUS = [
     [_mk("doins", "doins", "/usr/share/x", _dirarg(True), ins="-m0600", dirs="-m0700")],
     [_mk("dodoc", "dodoc", "/usr/share/doc/pn-1", _dirarg(True))],
     [_mk("dodoc", "dodoc", "/usr/share/doc/pn-1", _dirarg(False))],
+    # `-r dir/.` = the contents of dir directly under the destination; dir/ and dir// = dir itself
+    [_mk("doins", "doins", "/etc/demo", _dirarg(True, "/."), ins="-m0644", dirs="-m0755")],
+    [_mk("doins", "doins", "/etc/demo", _dirarg(True, "/.", nested=True), ins="-m0600")],
+    [_mk("dodoc", "dodoc", "/usr/share/doc/pn-1/html", _dirarg(True, "/./"))],
+    [_mk("doins", "doins", "/usr/share/x", _dirarg(True, "//"), dirs="-m0750"),
+     _mk("doins", "doins", "/usr/share/x", _dirarg(True, "/."), dirs="-m0700")],
+    [_mk("doins", "doins", "/usr/share/x", _dirarg(False, "/."))],
     # doman: language forms, -i18n (used to crash), names with dashes/dots, missing section, compression
     [_mk("doman", "doman", "/usr/share/man", _man(["foo.1", "foo.de.1", "foo.pt_BR.1", "foo.ptBR.1", "apt-get.de.8", "a.b.de.1"]))],
     [_mk("doman", "doman", "/usr/share/man", _man(["foo.1", "foo.de.1"], "fr"))],
@@ -969,6 +1020,20 @@ SEQ_CORPUS = [
     [_mk("basename", "dobin", "/usr/bin", lambda t: (_files(t, 1), _tg(t, _files(t, 1)))),
      _mk("dohard", "dohard", "/", lambda t: (["/usr/bin/" + _files(t, 1)[0], "/usr/bin/hl"],
                                                 {"source": "/usr/bin/" + _files(t, 1)[0], "target": "/usr/bin/hl"}), options="")],
+    # the same hard link requested twice, and a link name re-pointed through a third name
+    [_mk("basename", "dobin", "/usr/bin", lambda t: (_files(t, 2), _tg(t, _files(t, 2)))),
+     _mk("dohard", "dohard", "/", lambda t: (["/usr/bin/" + _files(t, 1)[0], "/usr/bin/hl"],
+                                                {"source": "/usr/bin/" + _files(t, 1)[0], "target": "/usr/bin/hl"}), options=""),
+     _mk("dohard", "dohard", "/", lambda t: (["/usr/bin/" + _files(t, 1)[0], "/usr/bin/hl"],
+                                                {"source": "/usr/bin/" + _files(t, 1)[0], "target": "/usr/bin/hl"}), options=""),
+     _mk("dohard", "dohard", "/", lambda t: (["usr/bin/hl", "/usr/bin/h3"], {"source": "usr/bin/hl", "target": "/usr/bin/h3"}), options=""),
+     _mk("dohard", "dohard", "/", lambda t: (["/usr/bin/" + _files(t, 1)[0], "/usr/bin/h3"],
+                                                {"source": "/usr/bin/" + _files(t, 1)[0], "target": "/usr/bin/h3"}), options=""),
+     _mk("dohard", "dohard", "/", lambda t: (["/usr/bin/" + _files(t, 2)[1], "/usr/bin/h3"],
+                                                {"source": "/usr/bin/" + _files(t, 2)[1], "target": "/usr/bin/h3"}), options="")],
+    [_mk("dosym", "dosym", "/", lambda t: (["a", "/usr/lib/l"], {"source": "a", "target": "/usr/lib/l", "relative": False}), options=""),
+     _mk("dosym", "dosym", "/", lambda t: (["a", "/usr/lib/l"], {"source": "a", "target": "/usr/lib/l", "relative": False}), options=""),
+     _mk("dosym", "dosym", "/", lambda t: (["../b", "/usr/lib/l"], {"source": "../b", "target": "/usr/lib/l", "relative": False}), options="")],
     [_mk("keepdir", "keepdir", "/", lambda t: (["/var/lib/x", "run"], {"dirs": ["/var/lib/x", "run"], "category": "cat", "pn": "pn", "slot": "0"}), dirs="-m0750",
          options='--diroptions="-m0750"')],
     # one long-lived helper object, several requests: the same page into another destination, and again with other diropts
